@@ -31,13 +31,15 @@ class Sub:
         return b''.join(p[1] for p in self.repl if p[0] == 'lit')
 
     def describe(self):
+        def part(p):
+            if p[0] == 'lit':
+                return repr(p[1].decode('latin-1'))
+            if p[0] == 'spaces':
+                return '<indent>'
+            return '\\%d' % (p[1] if len(p) > 1 else 0)
         return 're.sub({!r}, {}, ...)'.format(
             self.pattern.decode('latin-1'),
-            ''.join({'lit': repr(p[1].decode('latin-1')),
-                     'spaces': "<indent>", 'ref': '\\%d' % (p[1] if len(p) > 1
-                                                             else 0)}[p[0]]
-                    if p[0] != 'lit' else repr(p[1].decode('latin-1'))
-                    for p in self.repl))
+            ' + '.join(part(p) for p in self.repl) or "''")
 
 
 def _template_parts(data):
